@@ -621,3 +621,40 @@ def protocols() -> str:
         body = [s for s in fn[0].body if not (isinstance(s, ast.Expr) and isinstance(s.value, ast.Constant))]
         out.append(f"Definition gen_{name} (s : pstate) : poutcome :=\n  {_proto_stmts(body)}.\n")
     return "\n".join(out)
+
+
+# ------------------------------------------------------------------ build tables (C05) ----
+
+def build_tables() -> str:
+    """_build._v1_dtypes (schema name -> dtype alias) and aliases.py (alias -> class name)."""
+    text, mod = src("ndonnx/_build.py")
+    v1 = None
+    for n in mod.body:
+        if isinstance(n, (ast.Assign, ast.AnnAssign)):
+            tgt = n.targets[0] if isinstance(n, ast.Assign) else n.target
+            if isinstance(tgt, ast.Name) and tgt.id == "_v1_dtypes" and isinstance(n.value, ast.Dict):
+                v1 = [(k.value, v.attr) for k, v in zip(n.value.keys, n.value.values)
+                      if isinstance(k, ast.Constant) and isinstance(v, ast.Attribute)]
+                if len(v1) != len(n.value.keys):
+                    raise Untranslatable("_v1_dtypes: unexpected entry")
+    if v1 is None:
+        raise Untranslatable("_v1_dtypes not found")
+    t2, m2 = src("ndonnx/_data_types/aliases.py")
+    alias = {}
+    for n in m2.body:
+        if isinstance(n, ast.AnnAssign) and isinstance(n.target, ast.Name) and isinstance(n.value, ast.Call) and isinstance(n.value.func, ast.Name):
+            alias[n.target.id] = n.value.func.id
+    core = {"bool": "CBool", "int8": "CI8", "int16": "CI16", "int32": "CI32", "int64": "CI64", "uint8": "CU8", "uint16": "CU16",
+            "uint32": "CU32", "uint64": "CU64", "float32": "CF32", "float64": "CF64", "utf8": "CStr"}
+
+    def cd(a):
+        if a in core:
+            return f"(DCore {core[a]})"
+        if a.startswith("n") and a[1:] in core:
+            return f"(DNull {core[a[1:]]})"
+        raise Untranslatable(f"dtype alias {a}")
+    rows = ";\n".join(f"  ({qs(k)}, {cd(a)})" for k, a in v1)
+    arows = ";\n".join(f"  ({cd(a)}, {qs(c)})" for a, c in sorted(alias.items()))
+    return ("From Coq Require Import List String.\nFrom ND Require Import Base.Dtype.\nImport ListNotations.\nOpen Scope string_scope.\n\n"
+            f"Definition v1_dtypes : list (string * dtype) := [\n{rows}\n].\n\n"
+            f"(* dtype singleton -> class name (= Schema.type_name, type(self).__name__) *)\nDefinition class_names : list (dtype * string) := [\n{arows}\n].\n")
